@@ -106,3 +106,17 @@ impl Movement {
         dist_addition / weighted_strain_time
     }
 }
+
+#[cfg(rosu_pp_verif)]
+impl Movement {
+    /// Verification hook: the value `strain_value_at` returned for every
+    /// processed difficulty object.
+    pub fn verif_object_strains(&self) -> &[f64] {
+        &self.strain_skill_object_strains
+    }
+
+    /// Verification hook: the catcher half-width the skill was created with.
+    pub fn verif_half_catcher_width(&self) -> f32 {
+        self.half_catcher_width
+    }
+}
